@@ -4,6 +4,9 @@ seeded/*/meta.json and seeded/RESULTS.md."""
 import json, glob, os, re
 
 NOTES = {
+ "C14-22": "missed at first: containers whose vector 0 has one member under REP 2 and 3 (every matrix must be refused)",
+ "C15-21": "missed at first (the difference sits in a read path, storage and outcomes agree): the dual-world comparison now also compares a digest of everything the drivers read back per transition",
+ "C15-22": "missed at first: a sixth clause - the result of one GetFS/GetMain call is edited in place, the next call must still return the shipped bytes",
  "C01-19": "missed at first (needs a lock address that sorts before its owner's and an owner record that holds nothing): in balance-emptied-accounts two of the three lock addresses now sort before every owner, zero-amount transfers added",
  "C01-20": "missed at first: the all-zero hash as receiver and as mint target",
  "C02-19": "missed at first: a contract that refuses payments (its onNEP17Payment faults) as receiver",
